@@ -502,3 +502,50 @@ def _range_contains(w, st, fr, path, targs, args, dty):
     else:
         hi = tm.cmp("slt" if signed else "ult", x, end)
     return tm.binop("and", lo, hi)
+
+
+@builtin("core::slice::iter::<impl core::iter::IntoIterator for &'a mut [T]>::into_iter", "core::slice::<impl [T]>::iter_mut")
+def _slice_iter_mut(w, st, fr, path, targs, args, dty):
+    r = args[0]
+    if not isinstance(r, Ref):
+        return NOT_HANDLED
+    n = _arr_len(w, st, r)
+    if n is None:
+        return NOT_HANDLED
+    return Agg(("sliceiter",), 0, [r, K(0, 64), n])
+
+
+builtin("<core::slice::IterMut<'a, T> as core::iter::Iterator>::next")(_slice_iter_next)
+
+
+@builtin("core::slice::<impl [T]>::chunks_exact_mut", "core::slice::<impl [T]>::chunks_exact")
+def _chunks_exact(w, st, fr, path, targs, args, dty):
+    r, n = args[0], args[1]
+    if not isinstance(r, Ref) or not isinstance(n, T) or not n.is_const():
+        return NOT_HANDLED
+    ln = _arr_len(w, st, r)
+    if ln is None:
+        return NOT_HANDLED
+    return Agg(("chunksiter",), 0, [r, K(0, 64), ln, n])
+
+
+@builtin("<core::slice::ChunksExactMut<'a, T> as core::iter::Iterator>::next",
+         "<core::slice::ChunksExact<'a, T> as core::iter::Iterator>::next")
+def _chunks_next(w, st, fr, path, targs, args, dty):
+    r = args[0]
+    if not isinstance(r, Ref):
+        return NOT_HANDLED
+    it = w.load(st, r.obj, r.proj)
+    if not (isinstance(it, Agg) and it.kind == ("chunksiter",)):
+        return NOT_HANDLED
+    base, i, ln, n = it.fields
+    c = w.simplify(st, tm.cmp("ule", tm.binop("add", i, n), ln))
+
+    def take(s2):
+        w.store_to(s2, r.obj, r.proj, Agg(("chunksiter",), 0, [base, tm.binop("add", i, n), ln, n]))
+        oid = ("chunk", len(s2.trace), tm.show(i))
+        s2.store[oid] = Agg(("array",), 0, [Opaque("chunk[%d]" % k) for k in range(n.val)])
+        return some(Ref(oid, (), True, n))
+    if c.is_const():
+        return take(st) if c.val else NONE
+    return ForkValues([(c, 1, take), (c, 0, NONE)])
